@@ -204,6 +204,12 @@ def header_cases(ctx, fmts):
                 for sr in srs:
                     cases.append(Case(f, ch, sr, n, stale=rng.choice([0, 0, 77, 99999])))
                 k += 1
+    # channel counts at which the CAF 'peak' chunk pushes the header over a 4096-byte boundary (free_len wraps), and the maximum
+    for f in fmts:
+        if f.maxch >= 1024 and (f.codec in (0x06, 0x07) or (ctx.tier != "quick" and f.endian == 0)):
+            for ch in (333, 334, 674, 675, 1024):
+                for n in (0, 1):
+                    cases.append(Case(f, ch, rates[(ch + n) % len(rates)], n, stale=rng.choice([0, 99999])))
     return cases
 
 
@@ -263,12 +269,15 @@ def stream_headers(ctx, cases, st):
         # --- the property on the implementation's own output
         re_ = parse_open(o2)
         want = ("ok", c.expect_word(), c.ch, c.sr, c.n)
-        if re_ != want:
-            problems.append(("reopen", name, "re-open reports %s, written: fmt=%08x ch=%d sr=%d frames=%d" % (o2.strip(), want[1], c.ch, c.sr, c.n), text))
+        # the statement tolerates one pad frame where a container pads an odd byte count (CAF, one-byte frames)
+        pad_ok = c.cont == "caf" and c.bw == 1 and c.n % 2 == 1 and re_ == want[:4] + (c.n + 1,)
+        if re_ != want and not pad_ok:
+            problems.append(("reopen", name, "re-open reports %s, written: fmt=%08x ch=%d sr=%d frames=%d" % (o2.strip(), want[1], c.ch, c.sr, c.n),
+                             text.replace("close h1\n", ""), "open=ok err=0 ch=%d sr=%d frames=%d fmt=%08x" % (c.ch, c.sr, c.n, want[1])))
             continue
         bad = (caf_size_fields if c.cont == "caf" else w64_size_fields)(b, c.n, c.bw)
         if bad:
-            problems.append(("sizes", name, "a size field does not match the file: " + bad, text))
+            problems.append(("corr-sizes", name, "a size field does not match the file: " + bad, text))
             continue
         # --- model correspondence
         h, t = model_hdr[name]
@@ -602,14 +611,18 @@ def campaign(ctx):
     ctx.sample({"kind": "CAF/W64 container model", "formats": [f.name for f in fmts][:6], "counts": dict(st)})
     if not problems:
         return False
-    real = [p for p in problems if p[0] in ("reopen", "sizes", "crash")]
+    # a size field that disagrees with the file is reported with its script, but the statement of C04 speaks of what a
+    # re-open reports: only `reopen` / `crash` are failing inputs of the property itself
+    real = [p for p in problems if p[0] in ("reopen", "crash")]
     corr = [p for p in problems if p[0].startswith("corr")]
     prop = ctx.prop.lower()
-    for (kind, name, text, script) in real[:3]:
+    for pr in real[:3]:
+        kind, name, text, script = pr[:4]
+        expect = "expect-last %s\n" % pr[4] if len(pr) > 4 else ""
         ctx.violation("%s-cafw64-%s-%s" % (prop, kind, name),
-                      "# %s violated on the implementation's own output (CAF/W64 campaign)\n# %s\n--- script\n%s" % (ctx.prop, text, script))
+                      "# %s violated on the implementation's own output (CAF/W64 campaign)\n# %s\n%s--- script\n%s" % (ctx.prop, text, expect, script))
     if not real:
-        kind, name, text, script = corr[0]
+        kind, name, text, script = corr[0][:4]
         ctx.violation("%s-cafw64-correspondence-%s" % (prop, kind),
                       "# correspondence stream 'CAF/W64 container model vs implementation' no longer agrees: %d disagreement(s), kinds %s\n"
                       "# first: %s\n# the %s predicate on the implementation's own output (re-open info, size fields) found no failing input\n--- script\n%s"
